@@ -69,10 +69,39 @@ pub enum Ev {
     HeaderError,
     Preamble,
     Spurious,
+    // ---- informational flag set of a locked header (preamble + sync word + valid header)
+    HeaderValid,
+    // ---- several conditions latched before the host reads the status once. A terminal condition
+    // (done, timeout, CRC / header error) takes precedence over the informational flags
+    // (preamble detected, sync word / header valid) that are read together with it.
+    PreambleTimeout,
+    HeaderValidTimeout,
+    HeaderErrorTimeout,
+    /// packet received and the timeout flag latched too (SX126x datasheet 15.3: the timer is not
+    /// stopped by RxDone in implicit-header mode); TX: TxDone and the timeout together
+    TimeoutDone,
 }
+pub const ALL_EVS: [Ev; 12] = [Ev::Done, Ev::DoneDetected, Ev::Timeout, Ev::CrcError, Ev::HeaderError, Ev::Preamble, Ev::Spurious, Ev::HeaderValid, Ev::PreambleTimeout, Ev::HeaderValidTimeout, Ev::HeaderErrorTimeout, Ev::TimeoutDone];
 impl Ev {
+    /// the set contains a failure the operation may report (timeout, CRC error, header error)
+    pub fn has_error(self) -> bool {
+        matches!(self, Ev::Timeout | Ev::CrcError | Ev::HeaderError | Ev::PreambleTimeout | Ev::HeaderValidTimeout | Ev::HeaderErrorTimeout | Ev::TimeoutDone)
+    }
+    /// the set contains a completion (packet received / CAD done / TX done)
+    pub fn has_done(self) -> bool {
+        matches!(self, Ev::Done | Ev::DoneDetected | Ev::CrcError | Ev::TimeoutDone)
+    }
+    /// the set contains a timeout: the chip has left the operation by itself
+    pub fn has_timeout(self) -> bool {
+        matches!(self, Ev::Timeout | Ev::PreambleTimeout | Ev::HeaderValidTimeout | Ev::HeaderErrorTimeout | Ev::TimeoutDone)
+    }
     pub fn name(self) -> &'static str {
         match self {
+            Ev::HeaderValid => "header-valid",
+            Ev::PreambleTimeout => "preamble+timeout",
+            Ev::HeaderValidTimeout => "header-valid+timeout",
+            Ev::HeaderErrorTimeout => "header-error+timeout",
+            Ev::TimeoutDone => "timeout+done",
             Ev::Done => "done",
             Ev::DoneDetected => "done-detected",
             Ev::Timeout => "timeout",
@@ -83,7 +112,7 @@ impl Ev {
         }
     }
     pub fn from_name(s: &str) -> Option<Ev> {
-        [Ev::Done, Ev::DoneDetected, Ev::Timeout, Ev::CrcError, Ev::HeaderError, Ev::Preamble, Ev::Spurious].into_iter().find(|e| e.name() == s)
+        ALL_EVS.into_iter().find(|e| e.name() == s)
     }
 }
 
@@ -338,6 +367,9 @@ struct Interp<RK: RadioKind> {
     /// the next tx/rx/complete_rx/cad reports *that* outcome, whatever its own script holds
     carried_error: bool,
     carried_done: bool,
+    /// ... and with which the chip ended the reception by itself (done / timeout): the
+    /// complete_rx of that reception has to report it
+    carried_terminal: Option<String>,
 }
 
 const DUTY: DutyCycleParams = DutyCycleParams { rx_time: 640, sleep_time: 6400 };
@@ -539,6 +571,23 @@ impl<RK: RadioKind> Interp<RK> {
             }
         }
         // ---- blocked on the environment / cancellation
+        if res == Res::Pending && !self.recovering {
+            // The call is waiting for an interrupt that will never come. If the chip has already
+            // delivered a terminal outcome for this operation (during this call, or latched by a
+            // bare wait_for_irq before it) and no flag is pending any more, the driver has read and
+            // cleared that outcome without acting on it: the operation neither completed nor failed.
+            let (term, pending) = {
+                let w = self.world.borrow();
+                (w.terminal_in_op.clone(), w.chip.irq_line())
+            };
+            // (what a bare wait_for_irq let in belongs to the reception that complete_rx completes;
+            // rx / tx / cad start a new operation)
+            let what = term.or_else(|| if matches!(op, Op::CompleteRx { .. }) { self.carried_terminal.clone() } else { None });
+            if let (Some(ev), false) = (what, pending) {
+                let fpn = ev.clone();
+                return Err(self.viol(case, st, "I4", format!("i4/{name}/outcome-lost/{fpn}"), format!("the chip reported {ev} (flags latched, interrupt line fired) but {name} cleared it and keeps waiting: the operation neither completed nor failed; chip is in {}, driver believes {}", self.world.borrow().chip.mode_name(), belief_name(self.lora.verif_mode().0))));
+            }
+        }
         if res == Res::Pending {
             let cancellable = matches!(op, Op::WaitIrq { .. }) || (matches!(op, Op::Rx { .. } | Op::CompleteRx { .. }) && self.proto == PMode::Rx(RxM::Continuous));
             if !cancellable {
@@ -561,7 +610,7 @@ impl<RK: RadioKind> Interp<RK> {
                 // failed because of a chip outcome (timeout, error flag)
                 self.classes.push("chip-outcome-error");
                 self.saw_loss_or_failure = true;
-                let delivered_error = op.irq().iter().any(|e| matches!(e, Ev::Timeout | Ev::CrcError | Ev::HeaderError)) || self.carried_error;
+                let delivered_error = op.irq().iter().any(|e| e.has_error()) || self.carried_error;
                 if !delivered_error {
                     return Err(self.viol(case, st, "clean-result", format!("unexpected-error/{name}/{e}"), format!("{name} returned {e} although the chip reported {:?}", op.irq())));
                 }
@@ -606,7 +655,7 @@ impl<RK: RadioKind> Interp<RK> {
             (_, Op::StartRx) => {}
             (Res::OkRx(bytes), Op::Rx { .. } | Op::CompleteRx { .. }) => {
                 // (a packet that a bare wait_for_irq let in earlier carries that step's payload)
-                if leftover == 0 && !self.carried_done && !self.carried_error && op.irq().iter().any(|e| matches!(e, Ev::Done | Ev::CrcError)) && *bytes != rx_payload_for(idx) {
+                if leftover == 0 && !self.carried_done && !self.carried_error && op.irq().iter().any(|e| matches!(e, Ev::Done | Ev::CrcError | Ev::TimeoutDone)) && *bytes != rx_payload_for(idx) {
                     return Err(self.viol(case, st, "clean-result", format!("rx-payload/{name}"), format!("{name} returned {} but the chip received {}", hex(bytes), hex(&rx_payload_for(idx)))));
                 }
             }
@@ -627,14 +676,24 @@ impl<RK: RadioKind> Interp<RK> {
         // ---- outcomes a bare wait_for_irq leaves latched for the next operation
         match op {
             Op::WaitIrq { irq } => {
+                if let Some(t) = self.world.borrow().terminal_in_op.clone() {
+                    self.carried_terminal = Some(t);
+                }
                 if self.world.borrow().chip.irq_line() {
-                    if irq.iter().any(|e| matches!(e, Ev::Timeout | Ev::CrcError | Ev::HeaderError)) {
+                    if irq.iter().any(|e| e.has_error()) {
                         self.carried_error = true;
                     }
-                    if irq.iter().any(|e| matches!(e, Ev::Done | Ev::DoneDetected | Ev::CrcError)) {
+                    if irq.iter().any(|e| e.has_done()) {
                         self.carried_done = true;
                     }
                 }
+            }
+            // a call that sets up a new operation: what an abandoned operation left latched does not
+            // belong to the new one (a flag that leaks into it is the stale-flag defect)
+            Op::Init | Op::Sleep { .. } | Op::PrepTx { .. } | Op::PrepRx { .. } | Op::PrepCad { .. } | Op::Listen { .. } | Op::SetSync { .. } => {
+                self.carried_error = false;
+                self.carried_done = false;
+                self.carried_terminal = None;
             }
             // any other call: forgotten as soon as no interrupt flag is pending any more (the call
             // processed or cleared it)
@@ -642,6 +701,7 @@ impl<RK: RadioKind> Interp<RK> {
                 if !self.world.borrow().chip.irq_line() {
                     self.carried_error = false;
                     self.carried_done = false;
+                    self.carried_terminal = None;
                 }
             }
         }
@@ -780,7 +840,7 @@ fn interp<RK: RadioKind>(rk: RK, world: Shared, case: &Case) -> RunOut {
         out.failure = Some(Failure::new(v.rule, cj, v.detail.clone()).with_fp(v.fp.clone()));
         return out;
     }
-    let mut it = Interp { lora, world: world.clone(), board: case.board, proto: PMode::Standby, sync: 0x3444, sync_alt: None, recovering: false, exp_freq: None, exp_payload: vec![], saw_loss_or_failure: false, nontrivial: false, classes: vec![], carried_error: false, carried_done: false };
+    let mut it = Interp { lora, world: world.clone(), board: case.board, proto: PMode::Standby, sync: 0x3444, sync_alt: None, recovering: false, exp_freq: None, exp_payload: vec![], saw_loss_or_failure: false, nontrivial: false, classes: vec![], carried_error: false, carried_done: false, carried_terminal: None };
     let mut faulted = false;
     for (idx, op) in case.ops.iter().enumerate() {
         match it.step(case, idx, op) {
@@ -881,7 +941,7 @@ pub fn tolerated(kf: &KnownFindings, case: &Case, f: &Failure) -> Option<&'stati
     // second trigger of the stale-interrupt-flag finding (no fault needed): an earlier
     // wait_for_irq() consumed a timeout interrupt that nobody processed or cleared
     if case.board.is_126x() && kf.is_active(KF_STALE_IRQ) {
-        let abandoned = case.ops.iter().take(step).any(|o| matches!(o, Op::WaitIrq { irq } if irq.contains(&Ev::Timeout)));
+        let abandoned = case.ops.iter().take(step).any(|o| matches!(o, Op::WaitIrq { irq } if irq.iter().any(|e| e.has_timeout())));
         if abandoned && ["unexpected-error/rx/ReceiveTimeout", "unexpected-error/complete_rx/ReceiveTimeout", "unexpected-error/tx/TransmitTimeout"].contains(&fp) {
             return Some(KF_STALE_IRQ);
         }
@@ -935,6 +995,9 @@ pub fn alphabet(board: Board) -> Vec<Op> {
         Op::Rx { irq: vec![Ev::Spurious, Ev::Timeout] },
         Op::Rx { irq: vec![] },
         Op::Rx { irq: vec![Ev::Preamble] },
+        // several conditions latched in one status read: the terminal one decides
+        Op::Rx { irq: vec![Ev::PreambleTimeout] },
+        Op::CompleteRx { irq: vec![Ev::HeaderValid, Ev::HeaderValidTimeout] },
         Op::RxSwitch { ch: 2 },
         Op::Listen { ch: 3 },
         Op::PrepCad { ch: 0 },
@@ -1106,12 +1169,99 @@ pub fn fault_enumeration_reinit(st: &mut Stats, env: &Env, board: Board, depth: 
     }
 }
 
+/// The interrupt outcomes a reception can show: single conditions and sets of flags latched
+/// together before the host reads the status once (see `Ev`).
+pub fn rx_outcomes(board: Board) -> Vec<Ev> {
+    let mut v = vec![Ev::Done, Ev::Timeout, Ev::CrcError, Ev::Preamble, Ev::HeaderValid, Ev::Spurious, Ev::PreambleTimeout, Ev::HeaderValidTimeout, Ev::TimeoutDone];
+    if board.is_126x() {
+        v.extend([Ev::HeaderError, Ev::HeaderErrorTimeout]);
+    }
+    v
+}
+
+/// Exhaustive over the interrupt outcomes of the rx-type operations: every script of one or two
+/// status reads over `rx_outcomes` (informational sets first and a terminal set in the next read
+/// are among them), for rx / start_rx+complete_rx / start_rx+wait_for_irq+complete_rx (the first
+/// outcome already latched when complete_rx polls), in Single, Continuous and (SX126x) DutyCycle
+/// mode with both phase inputs, each followed by calls that expose a driver whose belief no longer
+/// matches the chip (start_rx must be refused after a terminal failure, the next transmission and
+/// reception must be set up from standby, sleep). CAD and TX outcome sets likewise.
+pub fn outcome_enumeration(st: &mut Stats, env: &Env, board: Board, ti: usize, nthreads: usize) {
+    let evs = rx_outcomes(board);
+    let mut scripts: Vec<Vec<Ev>> = evs.iter().map(|e| vec![*e]).collect();
+    for a in &evs {
+        for b in &evs {
+            scripts.push(vec![*a, *b]);
+        }
+    }
+    let mut modes = vec![RxM::Single(20), RxM::Continuous];
+    if board.is_126x() {
+        modes.push(RxM::Duty);
+    }
+    let follow: Vec<Vec<Op>> = vec![
+        vec![],
+        vec![Op::StartRx, Op::CompleteRx { irq: vec![Ev::Done] }],
+        vec![Op::PrepTx { ch: 1, len: 5 }, Op::Tx { irq: vec![Ev::Done] }],
+        vec![Op::PrepRx { mode: RxM::Single(20), ch: 2 }, Op::Rx { irq: vec![Ev::Done] }],
+        vec![Op::Sleep { warm: false }, Op::PrepRx { mode: RxM::Single(20), ch: 2 }, Op::Rx { irq: vec![Ev::Timeout] }],
+    ];
+    let mut k = 0usize;
+    let mut run = |st: &mut Stats, ops: Vec<Op>, duty: bool| {
+        k += 1;
+        if k % nthreads != ti {
+            return;
+        }
+        eval_case(st, env, &Case::plain(board, ops.clone(), false), "interrupt-outcome-sets");
+        if duty {
+            eval_case(st, env, &Case::plain(board, ops, true), "interrupt-outcome-sets");
+        }
+    };
+    for mode in &modes {
+        let duty = *mode == RxM::Duty;
+        for sc in &scripts {
+            for f in &follow {
+                let prep = Op::PrepRx { mode: *mode, ch: 0 };
+                let mut a = vec![prep.clone(), Op::Rx { irq: sc.clone() }];
+                a.extend(f.iter().cloned());
+                run(st, a, duty);
+                let mut b = vec![prep.clone(), Op::StartRx, Op::CompleteRx { irq: sc.clone() }];
+                b.extend(f.iter().cloned());
+                run(st, b, duty);
+                // the first outcome is let in by a bare wait_for_irq: it is already latched when
+                // complete_rx polls the status for the first time
+                let mut c = vec![prep, Op::StartRx, Op::WaitIrq { irq: vec![sc[0]] }, Op::CompleteRx { irq: sc[1..].to_vec() }];
+                c.extend(f.iter().cloned());
+                // (not with the duty-cycle sleep phase while informational flags of the abandoned
+                // wait keep the interrupt line asserted: see the report on that input)
+                let informational_pending = !sc[0].has_done() && !sc[0].has_timeout() && sc[0] != Ev::Spurious;
+                run(st, c, duty && !informational_pending);
+            }
+        }
+    }
+    // CAD: CadDone alone, CadDone+CadDetected, each also after a read without any flag
+    for sc in [vec![Ev::Done], vec![Ev::DoneDetected], vec![Ev::Spurious, Ev::Done], vec![Ev::Spurious, Ev::DoneDetected], vec![Ev::Spurious, Ev::Spurious, Ev::DoneDetected]] {
+        for f in &follow {
+            let mut a = vec![Op::PrepCad { ch: 0 }, Op::Cad { irq: sc.clone() }];
+            a.extend(f.iter().cloned());
+            run(st, a, false);
+        }
+    }
+    // TX: TxDone, timeout, both latched together
+    for sc in [vec![Ev::Done], vec![Ev::Timeout], vec![Ev::TimeoutDone], vec![Ev::Spurious, Ev::TimeoutDone], vec![Ev::Spurious, Ev::Timeout]] {
+        for f in &follow {
+            let mut a = vec![Op::PrepTx { ch: 0, len: 7 }, Op::Tx { irq: sc.clone() }];
+            a.extend(f.iter().cloned());
+            run(st, a, false);
+        }
+    }
+}
+
 // ---- random sequences (proptest)
 
 use proptest::prelude::*;
 
 fn ev_script(terminal: Vec<Ev>) -> impl Strategy<Value = Vec<Ev>> {
-    (proptest::collection::vec(prop_oneof![Just(Ev::Spurious), Just(Ev::Preamble)], 0..=2), proptest::sample::select(terminal), any::<bool>()).prop_map(|(mut pre, t, cut)| {
+    (proptest::collection::vec(prop_oneof![Just(Ev::Spurious), Just(Ev::Preamble), Just(Ev::HeaderValid)], 0..=2), proptest::sample::select(terminal), any::<bool>()).prop_map(|(mut pre, t, cut)| {
         if !cut || pre.is_empty() {
             pre.push(t);
         }
@@ -1120,12 +1270,12 @@ fn ev_script(terminal: Vec<Ev>) -> impl Strategy<Value = Vec<Ev>> {
 }
 
 fn fragment(is126: bool) -> impl Strategy<Value = Vec<Op>> {
-    let rx_terms = if is126 { vec![Ev::Done, Ev::Done, Ev::Timeout, Ev::CrcError, Ev::HeaderError] } else { vec![Ev::Done, Ev::Done, Ev::Timeout, Ev::CrcError] };
+    let rx_terms = if is126 { vec![Ev::Done, Ev::Done, Ev::Timeout, Ev::CrcError, Ev::HeaderError, Ev::PreambleTimeout, Ev::HeaderValidTimeout, Ev::HeaderErrorTimeout, Ev::TimeoutDone] } else { vec![Ev::Done, Ev::Done, Ev::Timeout, Ev::CrcError, Ev::PreambleTimeout, Ev::HeaderValidTimeout, Ev::TimeoutDone] };
     let modes: Vec<RxM> = if is126 { vec![RxM::Single(5), RxM::Single(300), RxM::Continuous, RxM::Duty] } else { vec![RxM::Single(5), RxM::Single(300), RxM::Continuous] };
     let rxs = ev_script(rx_terms.clone());
     let rxs2 = ev_script(rx_terms);
     prop_oneof![
-        3 => (0u8..4, 0u8..=40, ev_script(vec![Ev::Done, Ev::Done, Ev::Timeout])).prop_map(|(ch, len, irq)| vec![Op::PrepTx { ch, len }, Op::Tx { irq }]),
+        3 => (0u8..4, 0u8..=40, ev_script(if is126 { vec![Ev::Done, Ev::Done, Ev::Timeout, Ev::TimeoutDone] } else { vec![Ev::Done, Ev::Done, Ev::Timeout] })).prop_map(|(ch, len, irq)| vec![Op::PrepTx { ch, len }, Op::Tx { irq }]),
         3 => (proptest::sample::select(modes.clone()), 0u8..4, rxs).prop_map(|(mode, ch, irq)| vec![Op::PrepRx { mode, ch }, Op::Rx { irq }]),
         2 => (proptest::sample::select(modes), 0u8..4, rxs2, any::<bool>()).prop_map(|(mode, ch, irq, sw)| if sw { vec![Op::PrepRx { mode, ch }, Op::StartRx, Op::RxSwitch { ch: ch + 1 }, Op::CompleteRx { irq }] } else { vec![Op::PrepRx { mode, ch }, Op::StartRx, Op::CompleteRx { irq }] }),
         2 => any::<bool>().prop_map(|warm| vec![Op::Sleep { warm }]),
@@ -1133,7 +1283,7 @@ fn fragment(is126: bool) -> impl Strategy<Value = Vec<Op>> {
         1 => Just(vec![Op::Init]),
         1 => (0u8..4).prop_map(|ch| vec![Op::Listen { ch }]),
         1 => proptest::sample::select(vec![0x1424u16, 0x3444, 0x5464, 0xF4F4]).prop_map(|word| vec![Op::SetSync { word }]),
-        1 => proptest::sample::select(vec![vec![], vec![Ev::Done], vec![Ev::Spurious], vec![Ev::Timeout]]).prop_map(|irq| vec![Op::WaitIrq { irq }]),
+        1 => proptest::sample::select(vec![vec![], vec![Ev::Done], vec![Ev::Spurious], vec![Ev::Timeout], vec![Ev::PreambleTimeout], vec![Ev::TimeoutDone]]).prop_map(|irq| vec![Op::WaitIrq { irq }]),
         // lone calls (mostly wrong-mode)
         1 => proptest::sample::select(vec![Op::Tx { irq: vec![Ev::Done] }, Op::StartRx, Op::Rx { irq: vec![Ev::Done] }, Op::CompleteRx { irq: vec![Ev::Done] }, Op::Cad { irq: vec![Ev::Done] }, Op::RxSwitch { ch: 1 }]).prop_map(|o| vec![o]),
     ]
@@ -1221,11 +1371,13 @@ pub fn run(ctx: &mut Ctx) {
             // a second init() after every sequence of depth 2 (quick) / 3 (thorough, every 3rd),
             // with a fault at every interaction of that init
             fault_enumeration_reinit(st, &env, board, if thorough { 3 } else { 2 }, if thorough { 3 } else { 1 }, ti, n);
+            // every set / two-read sequence of interrupt outcomes for the rx-type operations
+            outcome_enumeration(st, &env, board, ti, n);
         }
         super::c14_adapter::run_part(st, &env, thorough, ti, n);
         random_sequences(st, &env, random_cases / n as u32 + 1, seed ^ (ti as u64).wrapping_mul(0x9E37_79B9_7F4A_7C15));
     });
-    ctx.rule = "One evaluation = one executed history (LoRa::new + API calls + interrupt outcomes [+ one failed bus/line interaction + recovery sequence]) on a chip model, judged step by step by I1-I5. Generated: (a) every API sequence of depth 3 (quick; depth 4 for two boards) / 4 (thorough) over the alphabet listed in `alphabet`, for 5 boards, both duty-cycle phase inputs; (b) the same suffix enumeration after 6-7 prefixes (cold/warm sleep, timed-out RX and TX, cancelled continuous RX, sync word change + cold sleep, running RX duty cycle); (c) fault enumeration: for every sequence of depth 2 (quick) / 3 (thorough) and every prefix+depth-1 (2) sequence, one variant per bus/line interaction k (SPI transfer, BUSY wait, IRQ wait, reset, RF switch) failing exactly k, each followed by a fault-free prepare_for_tx+tx and, separately, prepare_for_rx+rx; (c') re-initialisation after activity: every sequence of depth 2 (quick) / every third of depth 3 (thorough) followed by init(), one variant per interaction of that init failing, same two recoveries; (d) cancellation: wait_for_irq and rx/complete_rx in continuous mode dropped at every pending point their interrupt script reaches; (e) random sequences to depth 30 (proptest, shrinking); (f) the LorawanRadio adapter: all sequences of depth 4 (quick) / 5 (thorough) over its alphabet plus fault variants. Non-trivial (counted by hash of the case): the history contains a sleep, a failed/timed-out or a cancelled operation, or an injected fault, and a transmission or reception actually starts on the chip afterwards.".into();
+    ctx.rule = "One evaluation = one executed history (LoRa::new + API calls + interrupt outcomes [+ one failed bus/line interaction + recovery sequence]) on a chip model, judged step by step by I1-I5. Generated: (a) every API sequence of depth 3 (quick; depth 4 for two boards) / 4 (thorough) over the alphabet listed in `alphabet`, for 5 boards, both duty-cycle phase inputs; (b) the same suffix enumeration after 6-7 prefixes (cold/warm sleep, timed-out RX and TX, cancelled continuous RX, sync word change + cold sleep, running RX duty cycle); (c) fault enumeration: for every sequence of depth 2 (quick) / 3 (thorough) and every prefix+depth-1 (2) sequence, one variant per bus/line interaction k (SPI transfer, BUSY wait, IRQ wait, reset, RF switch) failing exactly k, each followed by a fault-free prepare_for_tx+tx and, separately, prepare_for_rx+rx; (c') re-initialisation after activity: every sequence of depth 2 (quick) / every third of depth 3 (thorough) followed by init(), one variant per interaction of that init failing, same two recoveries; (c'') interrupt-outcome sets: chip outcomes are SETS of flags latched before one status read (preamble+timeout, header-valid+timeout, header-error+timeout [SX126x], timeout+done, done+CRC error = `crc-error`, preamble+sync+header+done = `done`, CadDone+CadDetected, TxDone+timeout [SX126x]) besides the single conditions; every script of one or two status reads over that alphabet (11 outcomes on SX126x, 9 on SX127x) for rx, start_rx+complete_rx and start_rx+wait_for_irq+complete_rx (first outcome already latched at complete_rx's first poll) in Single, Continuous and DutyCycle mode (both phase inputs), each followed by nothing / start_rx+complete_rx / prepare_for_tx+tx / prepare_for_rx+rx / cold sleep+prepare_for_rx+rx; CAD and TX outcome sets likewise; the random sequences and the adapter alphabet draw the sets too; (d) cancellation: wait_for_irq and rx/complete_rx in continuous mode dropped at every pending point their interrupt script reaches; (e) random sequences to depth 30 (proptest, shrinking); (f) the LorawanRadio adapter: all sequences of depth 4 (quick) / 5 (thorough) over its alphabet plus fault variants. Non-trivial (counted by hash of the case): the history contains a sleep, a failed/timed-out or a cancelled operation, or an injected fault, and a transmission or reception actually starts on the chip afterwards.".into();
     ctx.assumptions = vec![
         "chip126x/chip127x are the trusted base: datasheet-level models (mode machine, register file with reset values, buffer/FIFO, IRQ flags and masks, configuration loss at reset / cold-sleep wake-up) written from the SX1261/2 and SX1276/SX1272 datasheets with hard-coded opcodes and addresses".into(),
         "a failed SPI transfer does not reach the chip; a failed BUSY/IRQ wait or RF-switch call leaves the chip untouched; after an injected fault only I2, I3, 'the error is returned', 'no panic' and success of the next fault-free prepare+tx / prepare+rx are required (not I4/I5)".into(),
@@ -1234,6 +1386,7 @@ pub fn run(ctx: &mut Ctx) {
         "in RxMode::Continuous an error leaves the radio receiving by documented design (I5 instead of I4)".into(),
         "RX duty cycle only on SX126x; whether the chip is in its sleep phase when an API call starts is a generated input; right after SetRxDutyCycle the chip listens".into(),
         "the interrupt line is level sensitive (as in iv.rs); an interrupt outcome that is impossible in the chip's current mode appears as a spurious edge".into(),
+        "flag sets: a terminal condition (RxDone, timeout, CRC error) read together with informational flags (preamble detected, sync word / header valid, header error) decides the outcome; timeout+done may be reported as either (packet delivered or timeout), done+CRC error likewise (as before); SX126x header error alone is informational (the modem keeps receiving), SX127x has no preamble / header-error interrupt in LoRa mode (ValidHeader is its informational flag); not generated: informational flags left latched by a bare wait_for_irq in RX duty cycle combined with the sleep-phase input for the following complete_rx (reported separately)".into(),
         "timeouts the chip cannot produce with the driver's settings (TX timeout with SetTx(0)) are still generated: the property quantifies over them".into(),
         "through LorawanRadio the driver's belief is private: only chip-side monitors (I2, I3), results, refusal of rx without setup (I1) and chip mode after timeouts are judged".into(),
         "not generated: process_irq_event/get_irq_state/get_rx_result/continuous_wave/get_rssi, payloads above 255 bytes, SX127x duty cycle (documented unsupported), dropping futures documented as not cancel-safe (tx, cad, complete_rx outside continuous mode: a blocked one ends the history)".into(),
@@ -1242,7 +1395,7 @@ pub fn run(ctx: &mut Ctx) {
         "I1": "an operation invoked in the wrong protocol state returns InvalidRadioMode with zero bus/line interactions",
         "I2": "no SPI command other than the GetStatus wake-up reaches a sleeping SX126x (also in the sleep phase of RX duty cycle); no FIFO access on a sleeping SX127x; no BUSY wait on a sleeping SX126x",
         "I3": "at SetTx/SetRx/SetRxDutyCycle (RegOpMode TX/RX): packet type/LoRa mode, sync word, regulator/TCXO when configured, buffer bases, modulation, packet and IRQ parameters, frequency (+payload for TX) programmed since the last configuration loss, and sync word / frequency / payload have the requested values",
-        "I4": "after an operation failed because of a chip outcome the chip is in standby and verif_mode() says Standby; a panic counts as a violation with the panic location as fingerprint",
+        "I4": "an operation whose chip-side outcome is terminal (done, timeout, error set latched and signalled on the interrupt line - during the call or by a bare wait_for_irq before complete_rx) completes or fails: it must not clear the flags and keep waiting (outcome-lost); after an operation failed because of a chip outcome the chip is in standby and verif_mode() says Standby; a panic counts as a violation with the panic location as fingerprint",
         "I5": "after every call: (SX126x) cold_start = false and calibrate_image = false => CalibrateImage issued since the chip last lost its configuration; belief Sleep => chip asleep, belief Standby => chip in standby, belief TX/RX/CAD/Listen => chip not asleep, started reception => chip receiving, belief == what the call history implies",
     }));
 }
